@@ -25,7 +25,7 @@ RULE = ("cases: plog models of every class (integer leaves, explicit and generat
 BUDGET = {"quick": (12, 220, 90), "thorough": (16, 2200, 1200)}
 PYTEST = True     # thorough tier also runs the repository's own tests under these monitors
 MANDATORY = ["judged:proposition:structure", "judged:proposition:text", "judged:proposition:queries", "judged:polyhedron:structure",
-             "judged:polyhedron:select", "contract:AtLeast.to_b64", "contract:ge_polyhedron_config.to_b64", "count:with-defaults", "count:xnor-or-imply", "count:derived-by-assume", "count:derived-by-reduce"]
+             "judged:polyhedron:select", "contract:AtLeast.to_b64", "contract:ge_polyhedron_config.to_b64", "count:with-defaults", "count:xnor-or-imply", "count:derived-by-assume", "count:derived-by-reduce", "count:packed-after-use", "judged:second-unpack-independent-of-first"]
 
 _n = 0
 
@@ -74,6 +74,15 @@ def battery(m, seed, is_cfg):
         out.append(("to_ge_polyhedron", digest.array_state(m.to_ge_polyhedron(True))))
     out.append(("flatten", tuple(digest.state(x) for x in m.flatten())))
     if is_cfg:
+        try:
+            gp = m.ge_polyhedron
+            out.append(("ge_polyhedron", digest.array_state(gp)))
+            ids_ = [v.id for v in gp.variables][1:]
+            if len(ids_) <= 14:
+                pr_ = [{rng.choice(ids_): rng.choice([-1, 1, 2])} for _ in range(2)] if ids_ else [{}]
+                out.append(("select", digest.result([(dict(a), b, c) for a, b, c in m.select(*pr_, solver=confgen.exact_solver_factory({}))])))
+        except BaseException as e:     # noqa
+            out.append(("ge_polyhedron/select", "exception:" + type(e).__name__))
         out.append(("default_prios", tuple(sorted((repr(k), v) for k, v in m.default_prios.items()))))
         c14.clear_caches()
         out.append(("leafs", tuple(digest.state(x) for x in m.leafs())))
@@ -100,6 +109,17 @@ def prop_post(pre, args, kwargs, result):
     ctx.judged("proposition:queries", len(b1) - 1)
     ctx.check(bad is None, "proposition:queries", lambda: dict(wit, query=bad[0], original=repr(bad[1])[:600], copy=repr(bad[2])[:600]))
     g, top, info = adapters.graph_of(self)
+    # unpacking the same string again, after the first copy was changed in place, must still give the original
+    comp = [c for c in refmodel.compounds(g, top) if c != top]
+    if comp:
+        import copy as _copy
+        try:
+            back.evaluate({comp[0]: 0})          # the known in-place rebinding (C09) on the FIRST copy only
+        except BaseException:    # noqa
+            pass
+        again = ctx.call("from_b64", pg.from_b64, result)
+        s3 = digest.state(again)
+        ctx.check(s3 == s1, "second-unpack-independent-of-first", lambda: dict(wit, diff=digest.first_diff(s1, s3), note="the first unpacked copy had been changed in place"))
     has_def = any(getattr(o, "default", None) for o in info["objects"].values())
     if has_def:
         ctx.count("count:with-defaults")
@@ -148,7 +168,7 @@ def gen_case(rng, tier, ctx, i):
             p["index"] = ["row-%d" % k for k in rng.sample(range(20), len(p["M"]))]       # a row index that is not the default one
         return {"poly": p, "dpv": [rng.choice([-1, -1, -2, 0, 3]) for _ in p["ids"]], "dtype": rng.choice(["int64", "int64", "int32"])}
     if rng.random() < 0.4:
-        return {"recipe": confgen.gen_config(rng, cid=rng.random() < 0.7), "cfg": True}
+        return {"recipe": confgen.gen_config(rng, cid=rng.random() < 0.7), "cfg": True, "seed": rng.getrandbits(32)}
     o = common.varied_opts(rng, tier)
     rec = common.model_case(rng, tier, o)
     if rec is None:
@@ -168,6 +188,14 @@ def run_case(case, ctx):
     m = recipes.fresh(case["recipe"])
     if adapters.is_leaf(m) or adapters.validated(m) is None:
         raise monitor.OutOfScope()
+    if case["cfg"] and random.Random(case.get("seed", 1)).random() < 0.5:
+        # the configurator has been used before it is packed (its polyhedron was asked for, it was solved)
+        ctx.count("count:packed-after-use")
+        c14.clear_caches()
+        pp = ctx.call("ge_polyhedron", lambda: m.ge_polyhedron)
+        ids_ = [v.id for v in pp.variables][1:]
+        if len(ids_) <= 14:
+            ctx.call("select", lambda: list(m.select({}, solver=confgen.exact_solver_factory({}))))
     ctx.call("to_b64", m.to_b64)
     # models returned by the library itself (assume / reduce / negate) are propositions too
     rng = random.Random(case.get("seed", 0))
